@@ -574,12 +574,19 @@ def value_expr(path: Path, index: int, expr, depth: int = 12, keep_clock: bool =
                                        keep, trace)
                 if found is not None:
                     return found
+            source = original.get(id(node))
             node = self.generic_visit(node)
             # a field of a record (typing.NamedTuple) that was built on this path
             fields = getattr(node.value, 'record_fields', None) \
                 if isinstance(node.value, ast.Tuple) else None
             if fields and node.attr in fields and isinstance(node.ctx, ast.Load):
                 return node.value.elts[fields.index(node.attr)]
+            # ... or of a value whose static type is such a record: item k of the tuple
+            position = _record_position(source, event if frame is None else None)
+            if position is not None and isinstance(node.ctx, ast.Load):
+                return ast.copy_location(ast.Subscript(
+                    value=node.value, slice=ast.Constant(value=position), ctx=ast.Load()),
+                    node)
             return node
 
         def visit_IfExp(self, node):
@@ -645,6 +652,10 @@ def value_expr(path: Path, index: int, expr, depth: int = 12, keep_clock: bool =
             record = _record_display(node, fn)
             if record is not None:
                 return record
+            accessed = _class_accessor(node, event if event is not None and
+                                       frame is None else None)
+            if accessed is not None:
+                return accessed
             inner = node.func
             if isinstance(inner, ast.Call) and inner.args and \
                     ast.unparse(inner.func) in ('partial', 'functools.partial') and \
@@ -696,6 +707,92 @@ def _module_constant(fn, name: str):
                 return None
         scope = scope.parent
     return entries[0][0]
+
+
+def _class_accessor(call: ast.Call, frame):
+    """``self.acc(obj)`` with ``acc`` a class attribute bound to an accessor of the operator
+    module (see the interpreter's ``_class_accessor_target``): what it computes for obj"""
+    if frame is None or frame.recv is None or not (
+            isinstance(call.func, ast.Attribute) and isinstance(call.func.value, ast.Name)
+            and call.func.value.id == 'self' and len(call.args) == 1 and not call.keywords
+            and not isinstance(call.args[0], ast.Starred)):
+        return None
+    program = getattr(frame.fn.module, 'program', None)
+    if program is None or program.find_method(frame.recv, call.func.attr) is not None:
+        return None
+    found = program.find_class_attr(frame.recv, call.func.attr)
+    value = found[1] if found else None
+    owner = program.classes.get(found[0]) if found else None
+    if isinstance(value, ast.Call) and isinstance(value.func, ast.Name) and \
+            value.func.id == 'staticmethod' and len(value.args) == 1:
+        value = value.args[0]
+    if not (isinstance(value, ast.Call) and owner is not None and value.args and all(
+            isinstance(a, ast.Constant) for a in value.args) and all(
+            kw.arg is not None and isinstance(kw.value, ast.Constant)
+            for kw in value.keywords)):
+        return None
+    binding = program.resolve_dotted(owner.module, value.func)
+    kind = binding[1] if binding and binding[0] == 'ext' else None
+    import copy
+    subject, first = call.args[0], value.args[0].value
+    if kind == 'operator.methodcaller' and isinstance(first, str) and first.isidentifier():
+        new = ast.Call(func=ast.Attribute(value=subject, attr=first, ctx=ast.Load()),
+                       args=[copy.deepcopy(a) for a in value.args[1:]],
+                       keywords=[copy.deepcopy(k) for k in value.keywords])
+    elif kind == 'operator.attrgetter' and len(value.args) == 1 and isinstance(first, str) \
+            and all(p.isidentifier() for p in first.split('.')):
+        new = subject
+        for part in first.split('.'):
+            new = ast.Attribute(value=new, attr=part, ctx=ast.Load())
+    elif kind == 'operator.itemgetter' and len(value.args) == 1:
+        new = ast.Subscript(value=subject, slice=copy.deepcopy(value.args[0]),
+                            ctx=ast.Load())
+    else:
+        return None
+    for fresh in ast.walk(new):
+        if isinstance(fresh, ast.expr) and not hasattr(fresh, 'lineno'):
+            ast.copy_location(fresh, call)
+    return new
+
+
+#: the type engine of the running analysis (set by ``Analysis``), for the few places where
+#: a value expansion needs a static type
+TYPES = None
+
+
+def _record_position(source, event):
+    """index of the field ``source.attr`` when the static type of ``source.value`` is one
+    record class (typing.NamedTuple) of the package, else None"""
+    if TYPES is None or source is None or event is None or \
+            not isinstance(source, ast.Attribute):
+        return None
+    program = getattr(event.fn.module, 'program', None)
+    if program is None or not any(
+            fields and source.attr in [n for n, _d in fields]
+            for fields in (record_fields(program, qn) for qn in _record_classes(program))):
+        return None
+    from .types import Frame
+    try:
+        found = TYPES.expr_type(source.value, Frame(event.fn, event.recv))
+    except Exception:
+        return None
+    classes = {t[1] for t in found if t[0] == 'inst'}
+    if len(classes) != 1 or len(found) != 1:
+        return None
+    fields = record_fields(program, next(iter(classes)))
+    names = [n for n, _d in fields] if fields else []
+    return names.index(source.attr) if source.attr in names else None
+
+
+_RECORD_CLASSES = {}
+
+
+def _record_classes(program):
+    found = _RECORD_CLASSES.get(id(program))
+    if found is None or found[1] is not program:
+        found = ([qn for qn in program.classes if record_fields(program, qn)], program)
+        _RECORD_CLASSES[id(program)] = found
+    return found[0]
 
 
 _RECORDS = {}
